@@ -48,6 +48,25 @@ Theorem C09_string_first_token : forall v rest, bytes_ok v -> follow_ok rest ->
 Proof. exact next_token_quote. Qed.
 Print Assumptions C09_string_first_token.
 
+(* unknown escapes, for EVERY character: a backslash followed by a well-formed multi-byte character p (or by an
+   ASCII character that is not an escape letter) keeps the backslash and ALL bytes of p:
+   ' v1 \ p v2 '  denotes  v1 ++ \ ++ p ++ v2   (v1, v2 arbitrary byte strings, quoted byte-wise) *)
+Theorem C09_unknown_escape_keeps_rune : forall v1 p v2, bytes_ok v1 -> bytes_ok v2 -> kept_escape p ->
+  exists e, tokenize (39 :: quote_body v1 ++ 92 :: p ++ quote_body v2 ++ [39]) =
+    Some [mk_item T_STRING (v1 ++ 92 :: p ++ v2) {| p_off := 1; p_line := 1; p_col := 1 |} false; e]
+    /\ it_tok e = T_EOF /\ it_val e = [].
+Proof. exact tokenize_unknown_escape. Qed.
+Print Assumptions C09_unknown_escape_keeps_rune.
+
+(* an INVALID byte x after the backslash (no well-formed sequence starts at x): the lexer reads U+FFFD there, the
+   value gets  \ EF BF BD  (builder kept reversed) and the lexer continues after x *)
+Theorem C09_invalid_byte_after_backslash : forall x s (l : plex) b, 128 <= x ->
+  snd (Base.Utf8.decode_rune (x :: s)) = 1%nat -> At l (92 :: x :: s) ->
+  quoted_body pure_stream 39 false (l, b) = ((read_char pure_stream (read_char pure_stream l), [189; 191; 239; 92] ++ b), true)
+  /\ At (read_char pure_stream (read_char pure_stream l)) s.
+Proof. exact invalid_byte_after_backslash. Qed.
+Print Assumptions C09_invalid_byte_after_backslash.
+
 (* Go's escapeStringLiteral/FormatLiteral = ClickHouse's single-level escaping applied twice *)
 Theorem C09_string_rendering : forall v, format_string v = canon_string v.
 Proof. exact format_string_canon. Qed.
@@ -209,6 +228,12 @@ Example ex_nested_negation :
   /\ literal_of_tokens w_parse_float w_int_to_float (toks (CTup [CNat 1; CNeg w_n]))
     = LOk (OLit (s_Tuple ++ s_UInt64 ++ [49; 44; 32] ++ w_neg_text ++ [41])).
 Proof. exact nested_neg_example. Qed.
+
+(* 'a\éb' denotes 61 5c c3 a9 62; after an invalid byte: 61 5c ef bf bd 62; the same rule in back-quoted identifiers *)
+Example ex_unknown_escape_rune : lex_string [39; 97; 92; 195; 169; 98; 39] = Some [97; 92; 195; 169; 98] /\
+                                 lex_string [39; 97; 92; 255; 98; 39] = Some [97; 92; 239; 191; 189; 98] /\
+                                 lex_ident [96; 97; 92; 195; 169; 98; 96] = Some [97; 92; 195; 169; 98].
+Proof. vm_compute. repeat split; reflexivity. Qed.
 
 (* 2^64-1 and -2^63 from source bytes *)
 Example ex_max_uint64 :
